@@ -9,6 +9,17 @@ vs dense matrix of the unreduced one), never against the model.
 Index entries: ['i', z] int, ['s', start, stop, step] slice, ['e'] Ellipsis, ['a', shape, data] integer
 array, ['m', shape, bits] boolean mask.  A pytree is given by the list of its leaf shapes (one leaf: a bare
 array; several: a dict, or the container named by case['cont']).
+
+TYPE / DTYPE of the entries (what IndexOperator.__init__, indexed_axes and the rules inspect with isinstance /
+.dtype): ['a', shape, data, dtype] is a JAX array of that integer dtype (default int32; JDT lists the kinds
+available with x64 off), ['a', shape, data, dtype, 'np'] / ['m', shape, bits, 'np'] a NumPy array,
+['i', z, nptype] a NumPy integer scalar, ['b', bool] a Python bool (an `int` for isinstance).  The model has no
+dtype: an XArr stands for an integer array of EVERY integer dtype, so the JAX-array cases of every dtype are
+compared with the same model term (a decision that depends on the integer kind shows as a disagreement).  NumPy
+arrays / scalars are outside the annotated domain (`Integer[Array]`, `int`): those cases are `lenient` (an
+exception anywhere is accepted, a value that is returned must be right) and are judged by the NumPy oracle only;
+Python bools and rank-0 masks are judged strictly by the oracle only (`nomodel`).  The NumPy reference always
+indexes with int64 / bool / int, never with the dtype under test.
 """
 from __future__ import annotations
 
@@ -50,19 +61,53 @@ def show(r, f=lambda v: v):
 # builders: JSON -> Python objects / NumPy reference / Coq terms
 
 
-def ent_py(e, xp):
+JDT = ['int8', 'int16', 'int32', 'uint8', 'uint16', 'uint32']  # JAX integer kinds with x64 off
+NDT = JDT + ['int64', 'uint64']
+
+
+def ent_py(e, xp, ref=False):
+    """The Python object of an entry: for the implementation (xp = jnp; dtype and library as described by the
+    entry) or, with ref=True, for the NumPy reference (int64 / bool arrays, Python ints)."""
+    np = fx()[2]
     k = e[0]
     if k == 'i':
+        if len(e) > 2 and not ref:
+            return getattr(np, e[2])(e[1])
         return int(e[1])
+    if k == 'b':
+        return bool(e[1])
     if k == 's':
         return slice(e[1], e[2], e[3])
     if k == 'e':
         return Ellipsis
     if k == 'a':
-        return xp.asarray(e[2], dtype='int32').reshape(tuple(e[1]))
+        if ref:
+            return np.asarray(e[2], dtype='int64').reshape(tuple(e[1]))
+        lib_ = np if len(e) > 4 and e[4] == 'np' else xp
+        return lib_.asarray(e[2], dtype=e[3] if len(e) > 3 else 'int32').reshape(tuple(e[1]))
     if k == 'm':
-        return xp.asarray(e[2], dtype=bool).reshape(tuple(e[1]))
+        lib_ = np if (ref or (len(e) > 3 and e[3] == 'np')) else xp
+        return lib_.asarray(e[2], dtype=bool).reshape(tuple(e[1]))
     raise ValueError(k)
+
+
+def foreign(e):
+    """NumPy arrays / NumPy scalars: outside the annotated domain of IndexOperator."""
+    return (e[0] == 'a' and len(e) > 4 and e[4] == 'np') or (e[0] == 'm' and len(e) > 3 and e[3] == 'np') or (
+        e[0] == 'i' and len(e) > 2
+    )
+
+
+def unmodelled(e):
+    """Entries Model/Index.v does not express: Python bools, rank-0 masks."""
+    return e[0] == 'b' or (e[0] == 'm' and list(e[1]) == [])
+
+
+def arr(shape, data, dt='int32', lib_='j'):
+    """Entry of an integer array; the default kind keeps the historical 3-element form."""
+    if lib_ == 'np':
+        return ['a', list(shape), list(data), dt, 'np']
+    return ['a', list(shape), list(data)] if dt == 'int32' else ['a', list(shape), list(data), dt]
 
 
 def ent_coq(e):
@@ -130,7 +175,7 @@ def np_index(sh, idx):
     """NumPy reference of leaf[idx] as a gather: [out shape, flat positions] (None when NumPy rejects)."""
     np = fx()[2]
     x = np.arange(prod(sh)).reshape(tuple(sh))
-    t = tuple(ent_py(e, np) for e in idx)
+    t = tuple(ent_py(e, np, ref=True) for e in idx)
     try:
         r = x[t]
     except Exception:
@@ -143,7 +188,7 @@ def np_scatter(sh, idx, y):
     """np.add.at(zeros(sh), idx, y)."""
     np = fx()[2]
     z = np.zeros(tuple(sh), dtype=np.int64)
-    t = tuple(ent_py(e, np) for e in idx)
+    t = tuple(ent_py(e, np, ref=True) for e in idx)
     np.add.at(z, t, np.asarray(y, dtype=np.int64).reshape(np.asarray(z[t]).shape))
     return [int(v) for v in z.ravel().tolist()]
 
@@ -218,7 +263,7 @@ def observe(op, case, is_pack=False):
         t = attempt(lambda: op.T)
         res[4] = show(attempt(lambda: [ints_of(l) for l in leaves_of(t[1].mv(yy))])) if t[0] == 'ok' else show(t)
         if not is_pack:
-            res[5] = isinstance(op.reduce(), core.IdentityOperator)
+            res[5] = show(attempt(lambda: isinstance(op.reduce(), core.IdentityOperator)))
         if level >= 8 and t[0] == 'ok':
             for slot, name, mk in ((6, 'ppt', lambda: op @ t[1]), (7, 'ptp', lambda: t[1] @ op)):
                 full = attempt(mk)
@@ -254,7 +299,19 @@ def rand_slice(rng, n):
     return ['s', rng.choice(vals), rng.choice(vals), rng.choice([None, None, 1, -1, 2, -2, 3])]
 
 
-def rand_arr(rng, n, unique=False):
+def rand_dtype(rng, vals, p=0.5):
+    """int32 with probability 1 - p, else any JAX integer kind that can hold the values."""
+    if rng.random() >= p:
+        return 'int32'
+    return rng.choice(JDT if min(vals, default=0) >= 0 else [d for d in JDT if d[0] == 'i'])
+
+
+def rand_arr(rng, n, unique=False, dt=None):
+    a = _rand_arr(rng, n, unique)
+    return arr(a[1], a[2], dt or rand_dtype(rng, a[2]))
+
+
+def _rand_arr(rng, n, unique=False):
     shape = rng.choice([[1], [2], [3], [2], [3], [4], [2, 2], [1, 2], [2, 1]])
     size = prod(shape)
     if unique:
@@ -384,6 +441,10 @@ class Check(PropertyCheck):
             c = {'kind': kind, 'idx': idx, 'single': single, 'ins': ins, 'outs': outs, 'user': user, 'level': level}
             if cont:
                 c['cont'] = cont
+            if any(foreign(e) for e in idx):
+                c['lenient'] = True
+            if any(foreign(e) or unmodelled(e) for e in idx):
+                c['nomodel'] = True
             c.update(kw)
             key = lib.case_id(c)
             if key not in seen:
@@ -438,15 +499,16 @@ class Check(PropertyCheck):
             for _ in range(14 if quick else 120):
                 ax = rng.randrange(r)
                 n = sh[ax]
-                arr = rand_arr(rng, n)
+                ar = rand_arr(rng, n)
                 if rng.random() < 0.1:
-                    arr = ['a', [], [rng.randrange(-n, n)]]
+                    z = rng.randrange(-n, n)
+                    ar = arr([], [z], rand_dtype(rng, [z]))
                 if rng.random() < 0.5:
-                    idx = [['s', None, None, None]] * ax + [arr]
+                    idx = [['s', None, None, None]] * ax + [ar]
                     if rng.random() < 0.3:
                         idx = idx + [['e']]
                 else:
-                    idx = [['e'], arr] + [['s', None, None, None]] * (r - 1 - ax)
+                    idx = [['e'], ar] + [['s', None, None, None]] * (r - 1 - ax)
                 add(idx, [sh], user=rng.choice([None, None, False]))
         # truthful / untruthful user flags on integer arrays
         for sh in ([4], [2, 3]):
@@ -457,6 +519,100 @@ class Check(PropertyCheck):
                 add([rand_arr(rng, n)], [sh], user=True, level='lite')  # possibly untruthful: only the logic is compared
             add([['s', 0, 2, None]], [sh], user=False)  # overridden to True
             add([['i', 0]], [sh], user=False, single=True)
+        # (G) integer KIND of the index arrays: every JAX dtype of JDT, repeated and non-repeated values ---------
+        FULL = [['s', None, None, None]]
+        for dt in JDT:
+            lo = 0 if dt[0] == 'u' else None
+            # all value tuples of length <= 2 on a (3,) leaf, length 3 sampled (the int32 ones are those of (A))
+            for length in (1, 2, 3):
+                for vals in itertools.product(range(-3 if lo is None else 0, 3), repeat=length):
+                    if length == 3 and not keep(10.0 / (27 if lo == 0 else 216), 0.5):
+                        continue
+                    add([arr([length], vals, dt)], [[3]], single=rng.random() < 0.5,
+                        level='full' if length >= 2 or keep(0.5) else 'lite')
+            # arrays of 0/1 of the length of the axis: the same bits as a mask (A) select something else
+            for sh in ([2], [3], [2, 3]):
+                n = sh[0]
+                for bits in itertools.product([0, 1], repeat=n):
+                    add([arr([n], bits, dt)], [sh], single=rng.random() < 0.5, outs=rng.choice([None, 'given']),
+                        level='full' if keep(0.6) else 'lite')
+                    if len(sh) > 1 and keep(0.5):
+                        m = sh[-1]
+                        add([['e'], arr([m], [b % m for b in bits] + [1] * (m - n), dt)], [sh])
+            # rank-0 / rank-2 arrays on every axis, directly and through the Ellipsis; user flags
+            for sh in ([2, 3], [3, 2, 2]):
+                r = len(sh)
+                for k in range(6 if quick else 40):
+                    ax = rng.randrange(r)
+                    n = sh[ax]
+                    a = _rand_arr(rng, n, unique=k % 3 == 0)
+                    if lo == 0:
+                        a = [a[0], a[1], [v % n for v in a[2]]]
+                    if k % 6 == 5:
+                        a = ['a', [], a[2][:1]]
+                    a = arr(a[1], a[2], dt)
+                    idx = [FULL[0]] * ax + [a] + ([['e']] if rng.random() < 0.3 else [])
+                    if rng.random() < 0.5:
+                        idx = [['e'], a] + [FULL[0]] * (r - 1 - ax)
+                    add(idx, [sh], user=rng.choice([None, None, False]))
+            for sh in ([4], [2, 3]):
+                n = sh[0]
+                rep = [1 % n, 0, 1 % n]
+                uni = [n - 1, 0]
+                for user, vals, lv in ((None, rep, 'full'), (False, rep, 'full'), (True, rep, 'lite'),
+                                       (None, uni, 'full'), (False, uni, 'full'), (True, uni, 'full')):
+                    add([arr([len(vals)], vals, dt)], [sh], user=user, level=lv, single=rng.random() < 0.5)
+                if lo is None:
+                    add([arr([2], [1 - n, 1], dt)], [sh], user=None)  # a negative alias of the same element
+                    add([arr([2], [-1, 0], dt)], [sh], user=True)
+            # together with an int, a slice, a mask, a second array of another kind; in a pytree of two leaves
+            other = JDT[(JDT.index(dt) + 2) % len(JDT)]
+            for vals in ([1, 0, 1], [0, 1]):
+                k = len(vals)
+                add([['i', 1], arr([k], vals, dt)], [[2, 3]])
+                add([['s', None, None, -1], arr([k], vals, dt)], [[2, 3]])
+                add([arr([k], vals, dt), ['s', 0, 2, None]], [[2, 3]])
+                add([arr([k], vals, dt), arr([k], [v + 1 for v in vals], other)], [[2, 3]])
+                add([arr([k], vals, dt), arr([k], vals, dt)], [[2, 3]])
+                add([['m', [2], [True, True]], arr([2], vals[:2], dt)], [[2, 3]])
+                add([arr([k], vals, dt)], [[2, 3], [2, 2]], cont=rng.choice([None, 'list', 'tuple']))
+                add([['e'], arr([k], vals, dt)], [[2, 3], [2]], cont=rng.choice([None, 'list', 'tuple']))
+        # (H) entries of a foreign TYPE (oracle only; NumPy arrays / scalars leniently) --------------------------
+        for dt in NDT:
+            neg = dt[0] == 'i'
+            for sh in ([4], [2, 3]):
+                n = sh[0]
+                sets = [[1 % n, 0, 1 % n], [n - 1, 0], [0]] + ([[1 - n, 1], [-1, 0]] if neg else [])
+                for vals in sets:
+                    add([arr([len(vals)], vals, dt, 'np')], [sh], single=rng.random() < 0.5, user=rng.choice([None, None, False]))
+                add([arr([2], [n - 1, 0], dt, 'np')], [sh], user=True)
+                add([arr([], [1 % n], dt, 'np')], [sh], single=True)
+                for z in ([0, n - 1] + ([-1, -n] if neg else [])):
+                    add([['i', z, dt]], [sh], single=rng.random() < 0.5)
+                    add([['e'], ['i', z % sh[-1], dt]], [sh], level='lite')
+            add([['e'], arr([2, 2], [2, 0, 0, 2], dt, 'np')], [[2, 3]])
+            add([['e'], arr([2, 2], [2, 0, 1, 2], dt, 'np')], [[2, 3]], user=None)
+            add([arr([2], [0, 1], dt, 'np'), arr([2], [1, 1], JDT[NDT.index(dt) % len(JDT)])], [[2, 3]])
+            add([['i', 1, dt], ['s', None, None, None], ['i', 0, dt]], [[3, 2, 2]])
+        for sh in ([4], [2, 3]):
+            n = sh[0]
+            for bits in itertools.product([False, True], repeat=n):
+                if n > 2 and not keep(0.4):
+                    continue
+                add([['m', [n], list(bits), 'np']], [sh], single=True)
+                add([['m', [n], list(bits), 'np']], [sh], outs=None, level='lite')  # not recognised as a mask
+        add([['e'], ['m', [3], [True, False, True], 'np']], [[2, 3]])
+        add([['m', [2, 3], [True, False, True, True, False, False], 'np']], [[2, 3]], single=True)
+        for sh in ([4], [2, 3], [2, 1, 3]):
+            for b in (True, False):
+                add([['b', b]], [sh], single=True)
+                add([['b', b]], [sh])
+                add([['e'], ['b', b]], [sh])
+                add([['i', 1], ['b', b]], [sh])
+                add([['b', b], ['s', 1, None, None]], [sh])
+                add([['m', [], [b]]], [sh], single=True)
+                add([['m', [], [b]]], [sh], outs=None, level='ctor')
+                add([['i', 0], ['m', [], [b]]], [sh])
         # (B) tuples of up to 3 entries (at most one array entry) --------------------------------
         for sh in SHAPES + [[2, 2], [3, 1, 2], [2, 2, 2, 2]]:
             for _ in range(110 if quick else 900):
@@ -496,7 +652,8 @@ class Check(PropertyCheck):
                                 bits[p] = True
                             idx.append(['m', [n], bits])
                         else:
-                            idx.append(['a', [size], [rng.randrange(-n, n) for _ in range(size)]])
+                            vs = [rng.randrange(-n, n) for _ in range(size)]
+                            idx.append(arr([size], vs, rand_dtype(rng, vs)))
                     else:
                         idx.append(rng.choice([['s', None, None, None], ['i', rng.randrange(-sh[ax], sh[ax])]]))
                 if all(np_index(s, idx) is not None for s in [sh]):
@@ -512,8 +669,7 @@ class Check(PropertyCheck):
                 add(idx, ins, level='full' if keep(0.5, 0.7) else 'lite', cont=rng.choice([None, 'list', 'tuple']))
             for _ in range(8 if quick else 60):
                 n = min(s[0] for s in ins)
-                arr = rand_arr(rng, n)
-                add([arr], ins, single=True)
+                add([rand_arr(rng, n)], ins, single=True)
                 n = min(s[-1] for s in ins)
                 add([['e'], rand_arr(rng, n)], ins)
         # (E) rejected / malformed ---------------------------------------------------------------
@@ -563,6 +719,8 @@ class Check(PropertyCheck):
                         ins = [msh + rest, msh + [2]]
                     cases.append({'kind': 'pack', 'msh': msh, 'bits': list(bits), 'ins': ins, 'cont': cont,
                                   'level': 'full' if keep(0.5) else 'lite'})
+                    if rng.random() < 0.25:  # the same mask as a NumPy array
+                        cases.append(dict(cases[-1], lib='np'))
         cases.append({'kind': 'pack', 'msh': [3], 'bits': [True, False, True], 'ins': [[2, 3]], 'cont': 'leaf', 'level': 'lite'})
         cases.append({'kind': 'pack', 'msh': [2], 'bits': [True, False], 'ins': [[2, 3], [3]], 'cont': 'dict', 'level': 'lite'})
         self.exhaustive = False
@@ -621,7 +779,7 @@ class Check(PropertyCheck):
         ins = case['ins']
         cont = case.get('cont')
         if case['kind'] == 'pack':
-            mask = jnp.asarray(case['bits'], dtype=bool).reshape(tuple(case['msh']))
+            mask = (np if case.get('lib') == 'np' else jnp).asarray(case['bits'], dtype=bool).reshape(tuple(case['msh']))
             op = attempt(lambda: linear.PackOperator(mask, structure(ins, cont)))
             if op[0] == 'err':
                 return {'error': op[1]}
@@ -648,6 +806,8 @@ class Check(PropertyCheck):
 
     # ------------------------------------------------------------------------------------------
     def model_term(self, case):
+        if case.get('nomodel'):
+            return None  # NumPy arrays / scalars, Python bools, rank-0 masks: judged by the oracle only
         ins = clist(case['ins'], cshape)
         level = LEVELS[case.get('level', 'full')]
         if case['kind'] == 'pack':
@@ -729,13 +889,18 @@ class Check(PropertyCheck):
             if not isinstance(obs, dict):
                 return f'{what}: accepted with {n_ell} Ellipses'
             return None
+        lenient = bool(case.get('lenient'))  # NumPy arrays / scalars: outside the annotated domain, may raise
         if case['outs'] is None and has_kind(idx, 'm'):
+            if lenient:  # a NumPy mask is not recognised as a mask: either refusal or a right operator
+                return None if isinstance(obs, dict) else self.oracle_common(case, obs, idx, what)
             if not isinstance(obs, dict) or obs.get('error') != 'ValueError':
                 return f'{what}: a mask without out_structure must raise ValueError, got {obs if isinstance(obs, dict) else "an operator"}'
             return None
         if not legal:
             return None  # NumPy rejects the expression for some leaf: outside the property
         if isinstance(obs, dict):
+            if lenient:
+                return None
             return f'{what}: legal in-bounds index expression rejected with {obs}'
         return self.oracle_common(case, obs, idx, what)
 
@@ -748,12 +913,17 @@ class Check(PropertyCheck):
         refs = [np_index(sh, idx) for sh in ins]
         if any(r is None for r in refs):
             return None
+        lenient = bool(case.get('lenient'))
+
+        def raised(v):  # lenient cases: an exception is accepted wherever it occurs, a returned value must be right
+            return lenient and isinstance(v, dict) and 'error' in v
+
         declared_ok = case.get('outs') is None or case['outs'] == [r[0] for r in refs]
-        if declared_ok and outs != [r[0] for r in refs]:
+        if declared_ok and outs != [r[0] for r in refs] and not raised(outs):
             return f'{what}: out_structure {outs}, NumPy x[idx] has shapes {[r[0] for r in refs]}'
-        if mv != refs:
+        if mv != refs and not raised(mv):
             return f'{what}: mv(arange) = {mv}, NumPy x[idx] = {refs}'
-        if tmv is not None:
+        if tmv is not None and not raised(tmv):
             exp = [np_scatter(sh, idx, list(range(1, len(r[1]) + 1))) for sh, r in zip(ins, refs)]
             if tmv != exp:
                 return f'{what}: T.mv(1..m) = {tmv}, np.add.at gives {exp}'
@@ -761,7 +931,7 @@ class Check(PropertyCheck):
         nodup = all(len(set(s)) == len(s) for s in sels)
         noop = all(s == list(range(prod(sh))) and r[0] == list(sh) for s, sh, r in zip(sels, ins, refs))
         if not is_pack:
-            if isinstance(axes, dict):
+            if isinstance(axes, dict) and not raised(axes):
                 return f'{what}: indexed_axes raised {axes}'
             if rid is True and not noop:
                 return f'{what}: reduce() is the IdentityOperator although x[idx] != x'
@@ -775,10 +945,12 @@ class Check(PropertyCheck):
         for name, val, lab in (('ppt', ppt, 'P @ P.T'), ('ptp', ptp, 'P.T @ P')):
             if val is None:
                 continue
+            if raised(val):
+                continue
             if isinstance(val, dict):
                 return f'{what}: ({lab}).reduce() raised {val}'
             ex = extras.get(name) if isinstance(extras, dict) else None
-            if not ex:
+            if not ex or raised(ex['full']) or raised(ex['red']) or raised(ex['structs']):
                 continue
             # explicit selection matrices from the NumPy reference (block diagonal over the leaves)
             m_tot = sum(len(s) for s in sels)
